@@ -77,6 +77,7 @@ class LoopMixin:
                     continue
                 srt = z3.ArraySort(T.RefSort, ft.sort())
             h.heap[k] = z3.Const(fresh_name(f"H_{k[0]}_{k[1]}"), srt)
+            h.ghost[("wline", k)] = getattr(node, "lineno", None)
         return h
 
     def havoc_keys(self, st, fields):
@@ -702,8 +703,9 @@ class LoopMixin:
             exempt = [lift(init_env[p]) for p, pt in c.params.items()
                       if isinstance(pt, T.Ref) and pt.cls == k[0] and f"{p}.{k[1]}" in c.modifies and p in init_env and not init_env[p].is_py]
             goal = z3.ForAll([r], z3.Implies(z3.And(BIRTH(r) < t0, *[r != e for e in exempt]), z3.Select(arr, r) == z3.Select(ent, r)))
-            self.oblige(s2, goal, "modifies", f"{k[0]}.{k[1]}-unchanged@L{ln}", None,
-                        info={"clause": f"heap field {k[0]}.{k[1]} is written but not listed in modifies: it must be unchanged on every object that existed at entry"})
+            w = s2.ghost.get(("wline", k))
+            self.oblige(s2, goal, "modifies", f"{k[0]}.{k[1]}-unchanged.written-L{w}@L{ln}", None,
+                        info={"clause": f"{c.key}: heap field {k[0]}.{k[1]} is written (last store / call / loop at line {w}) but not listed in modifies: it must be unchanged on every object that existed at entry. Add \"{k[0]}.{k[1]}\" (or \"<param>.{k[1]}\" if only that object is written) to modifies."})
         for n in sorted(getattr(s2, "mutated", ())):
             if n in init_env and n not in c.modifies:
                 v0, v1 = init_env[n], s2.env.get(n)
@@ -714,7 +716,7 @@ class LoopMixin:
                 except (Unsupported, ContractMisfit):
                     same = False
                 self.oblige(s2, same, "modifies", f"{n}-unchanged@L{ln}", None,
-                            info={"clause": f"parameter {n} is mutated in place but not listed in modifies: its final value must equal the initial one"})
+                            info={"clause": f"{c.key}: parameter {n} is mutated in place but not listed in modifies: its final value must equal the initial one. Add \"{n}\" to modifies."})
 
     def param_is_rebound(self, fdef, name):
         for n in ast.walk(fdef):
